@@ -7,13 +7,13 @@ from mirsym.harness import Violation, explore
 from . import scen
 from .multi import Driver, Proc
 
-CHILD = scen.wf("child", [scen.step("cs1", [scen.irq("c1")])], inputs={"r": 0}, outputs={"r": None})
+CHILD = scen.wf("child", [scen.step("cs1", [scen.irq("c1")])], inputs={"r": 0, "a": 7}, outputs={"r": None})
 CHILD2 = scen.wf("child", [scen.step("cs1", [{"id": "call2", "uses": "acts.core.subflow", "params": {"to": "grand", "options": {"g": 1}}}])], outputs={})
 GRAND = scen.wf("grand", [scen.step("gs1", [scen.irq("g1")])])
 
 
 def parent(to="child"):
-    return scen.wf("parent", [scen.step("s1", [{"id": "call", "uses": "acts.core.subflow", "params": {"to": to, "options": {"a": "$a"}}}, scen.irq("p0")]),
+    return scen.wf("parent", [scen.step("s1", [{"id": "call", "uses": "acts.core.subflow", "params": {"to": to, "options": {"a": "$a", "b": "$a"}}}, scen.irq("p0")]),
                               scen.step("s2", [scen.irq("p1")])])
 
 
@@ -94,13 +94,17 @@ def call_path(I, res, prop, shape, policy):
         ppid, ptid = got.pop("$parent_pid", None), got.pop("$parent_tid", None)
         if ppid != P.pid or ptid != call["tid"]:
             d.viol("child-parent-link", "child root data carries parent link (%r, %r), expected (%r, %r)" % (ppid, ptid, P.pid, call["tid"]))
-        extra = set(got.keys()) - {"a", "r"}
+        extra = set(got.keys()) - {"a", "b", "r"}
         if extra:
             d.viol("child-inputs:extra-keys:%s" % sorted(extra), "the child was started with keys %s besides the call options" % sorted(extra))
-        av = got.get("a")
-        res.obligations += 1
-        if av is None or (I.check_sat(z3.Not(av == a)) if is_sym(av) else True):
-            d.viol("child-inputs:option-value", "child input a = %r, the call passed %r" % (av, a))
+        # 'a' is also declared by the child (default 7), 'b' is not: the call's value wins / is added
+        for key in ("a", "b"):
+            av = got.get(key)
+            res.obligations += 1
+            if av is None or (I.check_sat(z3.Not(av == a)) if is_sym(av) else True):
+                d.viol("child-inputs:option-value:%s" % ("declared-by-child" if key == "a" else "undeclared"), "child input %s = %r, the call passed %r" % (key, av, a))
+        if got.get("r") != 0:
+            d.viol("child-inputs:own-default-lost", "the child's own input default r=0 arrived as %r" % (got.get("r"),))
     # the calling act stays open while the child runs
     if call["state"] in TERMINAL:
         d.viol("call-closed-early:%s" % call["state"], "the calling act is %s while the child process is still running" % call["state"])
@@ -158,3 +162,85 @@ def call_path(I, res, prop, shape, policy):
 
 def call(I, prop, shape, policy, max_paths):
     return explore(I, "subflow:%s:%s" % (shape, policy), lambda I, res: call_path(I, res, prop, shape, policy), max_paths=max_paths)
+
+
+# ---------------------------------------------------------------------------------------------- C17 with a sub-process
+def _rows(I, W, which):
+    dtype = {"tasks": "store::data::task::Task", "procs": "store::data::proc::Proc"}[which]
+    coll = I.call_raw("store::store::Store::%s" % which, [Ptr(W.store.c, 0)], None)
+    q = I.call_raw("store::query::Query::new", [], None)
+    r = I.call_raw("<dyn store::DbCollection<Item = %s> as store::DbCollection>::query" % dtype, [Ptr(coll.c, 0), Ptr([q], 0)], None)
+    if r.d != 0:
+        raise Unsupported("store query failed")
+    pf = {f[0]: i for i, f in enumerate(I.p.src.struct_fields("PageData"))}
+    names = [f[0] for f in I.p.src.struct_fields(dtype)]
+    return [dict(zip(names, row.f)) for row in r.f[0].f[pf["rows"]].a]
+
+
+def retention_path(I, res, prop, policy, keep):
+    """Default retention with a called sub-process: when the child has delivered its terminal event its rows are gone (the parent's stay);
+    when the parent has finished nothing is left.  keep_processes: both stay."""
+    d = Driver(I, res, prop, "subflow-retention:%s:%s" % ("keep" if keep else "default", policy))
+    W = d.world(policy=policy, keep_processes=keep)
+    deploy(d, W, CHILD)
+    deploy(d, W, subst(parent(), {"a": 3}))
+    r = start_by_mid(d, W, "parent", {})
+    if r.d != 0:
+        raise Unsupported("parent did not start: %r" % (r.f[0],))
+    W.drain()
+    pp = find_proc(W, "parent")
+    cps = find_proc(W, "child")
+    if len(pp) != 1 or len(cps) != 1:
+        raise Unsupported("parent / child not running")
+    P = Proc(W, pp[0], parent(), "P")
+    C = Proc(W, cps[0], CHILD, "C")
+    how = ["Next", "Error", "Abort", "Skip"][I.path.choose(4, "ending")]
+    c1 = [t for t in C.tasks() if t["kind"] == "Act" and t["state"] == "Interrupt"][0]
+    opts = {"r": 1}
+    if how == "Error":
+        opts = dict(opts, ecode="E7", message="child failed")
+    W.action(C.pid, c1["tid"], how, opts)
+    W.drain()
+    if not C.done():
+        raise Unsupported("child did not finish")
+    res.witnesses += 1
+
+    def count(pid):
+        return len([x for x in _rows(I, W, "procs") if x["id"] == pid]), len([x for x in _rows(I, W, "tasks") if x["pid"] == pid])
+
+    cp, ct = count(C.pid)
+    if not keep:
+        if cp or ct:
+            d.viol("rows-left:child:%s" % how, "the called process delivered its terminal event (%s) but %d process / %d task rows of it remain (default configuration)" % (how, cp, ct))
+    else:
+        if cp != 1 or ct == 0:
+            d.viol("keep:child-rows:%d/%d" % (cp, ct), "keep_processes: %d process / %d task rows of the finished child" % (cp, ct))
+    # the parent is still running (unless the child's error ended it): its rows must still be there
+    if not P.done():
+        pc, pt = count(P.pid)
+        if pc != 1 or pt == 0:
+            d.viol("rows-missing:running-parent", "the running parent has %d process / %d task rows after its child was removed" % (pc, pt))
+    n = 0
+    while n < 8:
+        P.live()
+        irqs = d.open_irqs(P) if not P.done() else []
+        if not irqs:
+            break
+        n += 1
+        d.answer(W, P, irqs[0])
+    if P.done():
+        pc, pt = count(P.pid)
+        if not keep and (pc or pt):
+            d.viol("rows-left:parent", "the parent finished but %d process / %d task rows remain (default configuration)" % (pc, pt))
+        if not keep:
+            left = (len(_rows(I, W, "procs")), len(_rows(I, W, "tasks")))
+            if left != (0, 0) and not (pc or pt or cp or ct):
+                d.viol("rows-left:other", "%d process / %d task rows of neither process remain" % left)
+        if keep and pc != 1:
+            d.viol("keep:parent-rows:%d" % pc, "keep_processes: %d process rows of the finished parent" % pc)
+    if len(res.samples) < 2:
+        res.samples.append(dict(retention="keep" if keep else "default", ending=how, child_rows=(cp, ct), parent_done=bool(P.done())))
+
+
+def retention(I, prop, policy, keep, max_paths):
+    return explore(I, "subflow-retention:%s:%s" % ("keep" if keep else "default", policy), lambda I, res: retention_path(I, res, prop, policy, keep), max_paths=max_paths)
